@@ -10,7 +10,8 @@ From TG.Model Require AstToCore Pipeline.
 From TG.Proofs Require OutlineTextProofs.
 From TG.Proofs Require Import SymbolOps OutlineKeepProofs.
 From TG.Gen Require Import GenHandlers.
-From TG.Proofs Require GenHandlersEq.
+From TG.Proofs Require GenHandlersEq GenHandlersSymEq.
+From TG.Model Require HandlerApi HandlerSymApi.
 Import ListNotations.
 Open Scope N_scope.
 
@@ -188,6 +189,25 @@ Check C18_model_is_source :
   (forall c, src_range_excluding_trivia c = range_excluding_trivia (cur_offset c) (fst c)) /\
   (forall db f, src_folding_exec db f = Some (folding_model (db f))).
 Print Assumptions C18_model_is_source.
+
+(** ... and the same for the outline: the rendering of handlers/document_symbol.rs `exec` and `symbol_to_document_symbol`
+    (enum Symbol = a view of the arena entry, the panicking accessors of the symbol map in the control monad, the recursion
+    through a defset's defs rendered with the depth bound 2) equals Outline.document_symbol / symbol_to_document_symbol for ALL
+    symbol-map states: the C18_outline_* theorems are theorems about the source text of the handler. *)
+Theorem C18_outline_model_is_source :
+  (forall M s e, symbol M s = SOk e ->
+     src_symbol_to_document_symbol 2 M (HandlerSymApi.sv_of (fst s) e) =
+     HandlerSymApi.outcome_of_sres (symbol_to_document_symbol M s)) /\
+  (forall M trees f, src_document_symbol_exec (HandlerSymApi.mkIdb M trees) f =
+                     HandlerSymApi.outcome_of_sres (document_symbol M f)).
+Proof. exact GenHandlersSymEq.c18_outline_model_is_source. Qed.
+Check C18_outline_model_is_source :
+  (forall M s e, symbol M s = SOk e ->
+     src_symbol_to_document_symbol 2 M (HandlerSymApi.sv_of (fst s) e) =
+     HandlerSymApi.outcome_of_sres (symbol_to_document_symbol M s)) /\
+  (forall M trees f, src_document_symbol_exec (HandlerSymApi.mkIdb M trees) f =
+                     HandlerSymApi.outcome_of_sres (document_symbol M f)).
+Print Assumptions C18_outline_model_is_source.
 
 (** C18_fold_one_to_one restated over the rendering of the source *)
 Theorem C18_source_fold : forall db f,
